@@ -4,8 +4,8 @@
 (declare-fun fold!2 () Bool)
 (declare-fun fields!1 () Int)
 (assert
- (let ((?x7 (localoffset fields!1 fold!2)))
-(let ((?x8 (- fields!1 ?x7)))
-(let (($x10 (= ?x8 ?x8)))
-(not $x10)))))
+ (let ((?x9 (localoffset fields!1 fold!2)))
+(let ((?x10 (- fields!1 ?x9)))
+(let (($x12 (= ?x10 ?x10)))
+(not $x12)))))
 (check-sat)
